@@ -6,6 +6,8 @@
 // (bumped by exactly one iff the monitor's own value-free fingerprint of the attribute database differs
 // from the previous run) and sf (1 iff no controller entity is stored), checked after the start and after
 // every operation.  A subset of the histories performs every run in a fresh child process.
+// Part 4 (sweep.go): thousands of small distinct structures through a six-run restart history without a
+// started transport (what is stored between runs depends on the content of the database).
 // Part 2: ValidatePin / NewIPTransport against "eight ASCII digits and not trivial".
 // Part 3: util.XHMURI and transport.XHMURI() against an independent decoder of the HAP setup payload.
 package main
@@ -48,6 +50,8 @@ func main() {
 	t1 := time.Now()
 	r.Guard("setup uris", func() { setupURIs(r) })
 	t2 := time.Now()
+	r.Guard("structure sweep", func() { structureSweep(r) })
+	t3 := time.Now()
 
 	// ---- part 1
 	n := r.Pick(40, 1000)
@@ -83,7 +87,7 @@ func main() {
 	}
 	close(ch)
 	wg.Wait()
-	r.Extra("wall_s_by_part", map[string]float64{"setup_codes": t1.Sub(t0).Seconds(), "setup_uris": t2.Sub(t1).Seconds(), "histories": time.Since(t2).Seconds()})
+	r.Extra("wall_s_by_part", map[string]float64{"setup_codes": t1.Sub(t0).Seconds(), "setup_uris": t2.Sub(t1).Seconds(), "structure_sweep": t3.Sub(t2).Seconds(), "histories": time.Since(t3).Seconds()})
 
 	r.Floor("histories_completed", int(r.Counter("histories_completed")), n*9/10)
 	r.Floor("bumps_observed", int(r.Counter("bumps_observed")), n/2)
